@@ -780,9 +780,6 @@ fn run_mem<BS: BitmapSlice>(mk: impl Fn(u32) -> Cont<BS>, tracked: bool) -> RunI
             if (25..=26).contains(&kind) && conts[ci].region.is_none() {
                 kind = cx().a(25);
             }
-            if tracked && kind == 20 {
-                kind = 0; // writes through handed-out references are exempt from tracking
-            }
             let stamp = step as u32 + 1;
             let before_pages: Vec<BTreeSet<usize>> = if tracked { conts.iter().map(|c| c.track.as_ref().unwrap().pages()).collect() } else { Vec::new() };
             let before_bytes: Vec<Vec<u8>> = if tracked { conts.iter().map(|c| raw_read(c.ptr, c.size)).collect() } else { Vec::new() };
@@ -1285,6 +1282,19 @@ impl Mem {
                 j.desc = format!("aligned_as_mut::<{}>({}) then write / aligned_as_ref read", TYPE_NAMES[ti], addr);
                 let bytes: Vec<u8> = (0..sz).map(|i| pat(stamp, i)).collect();
                 let ok = fits && aligned;
+                if conts[ci].track.is_some() {
+                    // writes through handed-out references are exempt from tracking, so in tracked worlds the
+                    // references are only derived: handing one out writes nothing and must mark nothing
+                    j.kind = "aligned_as_mut (derived, not written through)";
+                    j.desc = format!("aligned_as_mut::<{}>({}) / aligned_as_ref, nothing written", TYPE_NAMES[ti], addr);
+                    let got = with_allowed(rid, &[(abs(addr), abs(addr) + if ok { sz } else { 0 })], || {
+                        // SAFETY: single-threaded; the references are dropped at once.
+                        with_type!(ti, T => flat(catch(|| unsafe { view.aligned_as_mut::<T>(addr).map(|_| ()).and_then(|()| view.aligned_as_ref::<T>(addr).map(|_| ())) }), obs_unit))
+                    });
+                    let exp = if !fits { Obs::Oob } else if !aligned { Obs::Misaligned } else { Obs::Unit };
+                    j.expect(&got, &exp);
+                    tally!(got);
+                } else {
                 let got = with_allowed(rid, &[(abs(addr), abs(addr) + if ok { sz } else { 0 })], || {
                     // SAFETY: single-threaded; nobody else uses the bytes during this statement.
                     with_type!(ti, T => flat(catch(|| unsafe { view.aligned_as_mut::<T>(addr).map(|r| *r = mk::<T>(&bytes)).and_then(|()| view.aligned_as_ref::<T>(addr).map(|r| bytes_of(r))) }), |r| match r { Ok(b) => Obs::Bytes(b), Err(e) => obs_err(&e) }))
@@ -1296,6 +1306,7 @@ impl Mem {
                 }
                 j.expect(&got, &exp);
                 tally!(got);
+                }
             }
             // ---- the region's own byte-access interface (Bytes<MemoryRegionAddress>) -----------------------
             25 | 26 => {
